@@ -873,6 +873,9 @@ class FnTr:
 
     def compare2(self, a, op, b):
         num = ('Dt', 'Td', 'Int')
+        if isinstance(op, (ast.In, ast.NotIn)) and b.typ.startswith('List ') and b.typ[5:] == a.typ:
+            r = Val(f'(({b.text}).contains {a.text})', 'Bool')
+            return r if isinstance(op, ast.In) else Val(f'(!{r.text})', 'Bool')
         if isinstance(op, (ast.In, ast.NotIn)) and b.typ.startswith('Set '):
             r = Val(f'(({b.text}).contains {a.text})', 'Bool')
             return r if isinstance(op, ast.In) else Val(f'(!{r.text})', 'Bool')
@@ -899,6 +902,8 @@ class FnTr:
                 return Val(f'({a.text} == {b.text})', 'Bool')
             if isinstance(op, ast.NotEq):
                 return Val(f'({a.text} != {b.text})', 'Bool')
+        if isinstance(op, (ast.Eq, ast.NotEq)) and a.typ == b.typ == 'Pt':
+            return Val(f'({a.text} {"==" if isinstance(op, ast.Eq) else "!="} {b.text})', 'Bool')
         if isinstance(op, (ast.Eq, ast.NotEq)):
             cls = self.u.class_of(a.typ)
             if cls and b.typ == a.typ:
@@ -1044,15 +1049,24 @@ class FnTr:
         return Val(f'(({xs.text}).filter (fun {x} =>\n{_indent(body, 4)}))', xs.typ)
 
     def any_all(self, which, g):
-        if len(g.generators) != 1 or g.generators[0].ifs or not isinstance(g.generators[0].target, ast.Name):
+        tgt = g.generators[0].target if len(g.generators) == 1 else None
+        pair = isinstance(tgt, ast.Tuple) and len(tgt.elts) == 2 and all(isinstance(t, ast.Name) for t in tgt.elts)
+        if len(g.generators) != 1 or g.generators[0].ifs or not (isinstance(tgt, ast.Name) or pair):
             raise Unsupported('generator with filters / several loops')
         xs = self.expr(g.generators[0].iter)
         if not xs.typ.startswith('List '):
             raise Unsupported(f'{which}() over {xs.typ}')
-        x = self.gensym(lname(g.generators[0].target.id))
+        x = self.gensym(lname(tgt.id) if not pair else 'pair')
         inner = self.sub()
         inner.fresh = self.fresh
-        inner.env[g.generators[0].target.id] = Val(x, xs.typ[5:], path=g.generators[0].target.id)
+        if pair:
+            parts = _prod_parts(xs.typ[5:])
+            if len(parts) != 2:
+                raise Unsupported(f'unpacking {xs.typ[5:]} into two names')
+            for i, t in enumerate(tgt.elts):
+                inner.env[t.id] = Val(f'{x}.{i + 1}', parts[i], path=t.id)
+        else:
+            inner.env[tgt.id] = Val(x, xs.typ[5:], path=tgt.id)
         c = inner.truth(inner.expr(g.elt))
         if inner.pending:
             body = inner.wrap(inner.ok(c))
